@@ -11,4 +11,12 @@ Inv == /\ BNToInt(BNOfInt(n)) = n
        /\ (n < 10000 => BNToInt(BNMulSmall(BNOfInt(n), k)) = n * k)
        /\ BNDivSmall(BNMulSmall(BNMulSmall(BNOfInt(n), 200000), 99999), 99999).q = BNMulSmall(BNOfInt(n), 200000)
        /\ (n < 1000000000 => BNToInt(BNAdd(BNOfInt(n), BNOfInt(n))) = 2 * n)
+       /\ (n < 40000 /\ k < 40000 => BNToInt(BNMul(BNOfInt(n), BNOfInt(k))) = n * k)
+       /\ BNMul(BNOfInt(n), BNOfInt(k)) = BNMul(BNOfInt(k), BNOfInt(n))
+       /\ BNDivSmall(BNMul(BNOfInt(n), BNOfInt(k)), k).q = BNOfInt(n)
+       \* rounding shifts against plain integers: n / 2^e for e = 1, 3, 13
+       /\ LET rhe(x, p) == LET q == x \div p  r == x % p IN IF 2 * r > p \/ (2 * r = p /\ q % 2 = 1) THEN q + 1 ELSE q
+          IN /\ BNToInt(BNShiftRound(BNOfInt(n), 1, FALSE)) = rhe(n, 2)
+             /\ BNToInt(BNShiftRound(BNOfInt(n), 3, FALSE)) = rhe(n, 8)
+             /\ BNToInt(BNShiftRound(BNOfInt(n), 13, FALSE)) = rhe(n, 8192)
 ====
